@@ -6,6 +6,11 @@ names = sys.argv[1:] or sorted(os.listdir("/verif/seeded"))
 st = subprocess.run(["git", "-C", "/repo", "status", "--porcelain"], capture_output=True, text=True).stdout.strip()
 if st:
     print("refusing: /repo working tree is not clean:\n" + st); sys.exit(2)
+import shutil
+# the checks rewrite /verif/evidence on every run: keep the evidence of the unchanged tree aside and put it back afterwards
+if os.path.isdir("/verif/evidence"):
+    shutil.rmtree("/verif/.cache/work/evidence_backup", ignore_errors=True)
+    shutil.copytree("/verif/evidence", "/verif/.cache/work/evidence_backup")
 for n in names:
     d = f"/verif/seeded/{n}"
     meta = json.load(open(f"{d}/meta.json"))
@@ -25,3 +30,7 @@ for n in names:
     meta["detection"] = det
     meta["detected"] = any(v["exit"] == 1 and any(l.startswith("VIOLATION") for l in v["lines"]) for v in det.values())
     json.dump(meta, open(f"{d}/meta.json", "w"), indent=1)
+
+if os.path.isdir("/verif/.cache/work/evidence_backup"):
+    shutil.rmtree("/verif/evidence", ignore_errors=True)
+    shutil.copytree("/verif/.cache/work/evidence_backup", "/verif/evidence")
